@@ -57,6 +57,7 @@ type Config struct {
 	Cuts        []CutSpec
 	AssertSolver string // one-shot back end for assertion queries (e.g. cvc5-int for checksum arithmetic)
 	AssertTimeoutMs int
+	NoLemmas bool // do not add proven assertions to the path condition
 }
 
 // Stats of one obligation run.
@@ -102,6 +103,11 @@ type X struct {
 	cutSeen   map[string]int
 	Params    map[string]int
 	cutOld    map[string]Value
+	stack     []*frame
+	locSeq    int
+	locByID   []Loc
+	chanByID  []*ChanObj
+	bmc       *bmcCtx
 	clockMax  *T
 	clockFrozen bool
 	AuxQueries, AuxSat, AuxUnsat, AuxUnk int
@@ -400,7 +406,18 @@ func (x *X) Run(fn *ssa.Function) {
 }
 
 func (x *X) runPath(fn *ssa.Function) (kind string) {
+	return x.runPathEntry(func() {
+		x.runInits(fn.Pkg)
+		x.call(fn, nil, nil)
+	})
+}
+
+func (x *X) runPathEntry(entry func()) (kind string) {
 	x.pos = 0
+	x.stack = nil
+	x.locSeq = 0
+	x.locByID = x.locByID[:0]
+	x.chanByID = x.chanByID[:0]
 	x.pc = nil
 	x.globals = map[*ssa.Global]Loc{}
 	x.names = map[string]int{}
@@ -435,8 +452,7 @@ func (x *X) runPath(fn *ssa.Function) (kind string) {
 			}
 		}
 	}()
-	x.runInits(fn.Pkg)
-	x.call(fn, nil, nil)
+	entry()
 	return "return"
 }
 
@@ -495,6 +511,8 @@ type frame struct {
 	defers []func()
 	visits map[int]int
 	result Value
+	blk    *ssa.BasicBlock // current position (for the interleaving mode)
+	idx    int
 }
 
 func (x *X) get(fr *frame, v ssa.Value) Value {
@@ -598,8 +616,15 @@ func (x *X) call(fn *ssa.Function, args []Value, bind []Value) Value {
 	for i, fv := range fn.FreeVars {
 		fr.env[fv] = bind[i]
 	}
-	var prev *ssa.BasicBlock
-	blk := fn.Blocks[0]
+	x.stack = append(x.stack, fr)
+	defer func() { x.stack = x.stack[:len(x.stack)-1] }()
+	return x.runFrame(fr, fn.Blocks[0], 0, nil)
+}
+
+// runFrame executes fr from instruction index start of block blk (start > 0: resuming in the
+// middle of a block, phis and cut-points of that block are not re-evaluated).
+func (x *X) runFrame(fr *frame, blk *ssa.BasicBlock, start int, prev *ssa.BasicBlock) Value {
+	fn := fr.fn
 	symArrive := false
 	for {
 		// only arrivals through a solver-decided branch count against the unwinding bound;
@@ -614,12 +639,14 @@ func (x *X) call(fn *ssa.Function, args []Value, bind []Value) Value {
 		if fr.visits[blk.Index] > x.Cfg.Unwind {
 			panic(pathEnd{"unwind", fmt.Sprintf("%s block %d visited > %d times", fn.String(), blk.Index, x.Cfg.Unwind)})
 		}
-		if nb, handled := x.atCut(fr, blk, prev); handled {
-			if nb == nil {
-				return fr.result
+		if start == 0 {
+			if nb, handled := x.atCut(fr, blk, prev); handled {
+				if nb == nil {
+					return fr.result
+				}
+				prev, blk = blk, nb
+				continue
 			}
-			prev, blk = blk, nb
-			continue
 		}
 		// phis first (parallel assignment)
 		nphi := 0
@@ -628,6 +655,10 @@ func (x *X) call(fn *ssa.Function, args []Value, bind []Value) Value {
 			phi, ok := ins.(*ssa.Phi)
 			if !ok {
 				break
+			}
+			if start > 0 {
+				nphi++
+				continue
 			}
 			nphi++
 			idx := -1
@@ -642,11 +673,19 @@ func (x *X) call(fn *ssa.Function, args []Value, bind []Value) Value {
 			}
 			phiVals = append(phiVals, x.get(fr, phi.Edges[idx]))
 		}
-		for i := 0; i < nphi; i++ {
-			fr.env[blk.Instrs[i].(*ssa.Phi)] = phiVals[i]
+		if start == 0 {
+			for i := 0; i < nphi; i++ {
+				fr.env[blk.Instrs[i].(*ssa.Phi)] = phiVals[i]
+			}
 		}
+		first := nphi
+		if start > first {
+			first = start
+		}
+		start = 0
 		var next *ssa.BasicBlock
-		for _, ins := range blk.Instrs[nphi:] {
+		for ii, ins := range blk.Instrs[first:] {
+			fr.blk, fr.idx = blk, first+ii
 			x.steps++
 			x.St.Steps++
 			if x.steps > x.Cfg.MaxSteps {
@@ -763,7 +802,12 @@ func (x *X) exec(fr *frame, ins ssa.Instruction) {
 		fr.env[ins] = MapRef{M: &MapObj{KeyT: mt.Key(), ValT: mt.Elem()}}
 	case *ssa.MakeChan:
 		n := x.concretize(x.toInt64(x.get(fr, ins.Size), ins.Size.Type()), "chan size")
-		fr.env[ins] = ChanRef{C: &ChanObj{Cap: int(n), ElemT: ins.Type().Underlying().(*types.Chan).Elem()}}
+		co := &ChanObj{Cap: int(n), ElemT: ins.Type().Underlying().(*types.Chan).Elem()}
+		if x.bmc != nil {
+			x.chanByID = append(x.chanByID, co)
+			co.ID = len(x.chanByID)
+		}
+		fr.env[ins] = ChanRef{C: co}
 	case *ssa.MakeClosure:
 		fv := FuncVal{Fn: ins.Fn.(*ssa.Function)}
 		for _, b := range ins.Bindings {
@@ -790,8 +834,10 @@ func (x *X) exec(fr *frame, ins ssa.Instruction) {
 	case *ssa.Next:
 		fr.env[ins] = x.next(fr, ins)
 	case *ssa.Send:
+		x.bmcAtVisible("chan send")
 		x.chanSend(x.get(fr, ins.Chan).(ChanRef), x.get(fr, ins.X))
 	case *ssa.Select:
+		x.bmcAtVisible("select")
 		fr.env[ins] = x.selectOp(fr, ins)
 	case *ssa.SliceToArrayPointer:
 		s := x.get(fr, ins.X).(Slice)
@@ -832,6 +878,7 @@ func (x *X) unop(fr *frame, ins *ssa.UnOp) Value {
 	case token.XOR:
 		return x.B.BNot(v.(*T))
 	case token.ARROW:
+		x.bmcAtVisible("chan receive")
 		r, ok := x.chanRecv(v.(ChanRef))
 		if ins.CommaOk {
 			return Tuple{r, x.B.Bool(ok)}
@@ -1362,6 +1409,13 @@ func (x *X) chanSend(c ChanRef, v Value) {
 	if c.C == nil {
 		panic(pathEnd{"blocked", "send on nil channel"})
 	}
+	if c.C.Count != nil {
+		if !x.branch(x.B.ULT(c.C.Count, x.B.Const(uint64(c.C.Cap), 8))) {
+			panic(pathEnd{"blocked", "send on full channel"})
+		}
+		c.C.Count = x.B.Add(c.C.Count, x.B.Const(1, 8))
+		return
+	}
 	if c.C.Closed {
 		x.gopanic("send on closed channel")
 	}
@@ -1375,6 +1429,13 @@ func (x *X) chanRecv(c ChanRef) (Value, bool) {
 	if c.C == nil {
 		panic(pathEnd{"blocked", "receive from nil channel"})
 	}
+	if c.C.Count != nil {
+		if !x.branch(x.B.Not(x.B.Eq(c.C.Count, x.B.Const(0, 8)))) {
+			panic(pathEnd{"blocked", "receive from empty channel"})
+		}
+		c.C.Count = x.B.Sub(c.C.Count, x.B.Const(1, 8))
+		return x.zeroValue(c.C.ElemT), true
+	}
 	if len(c.C.Buf) > 0 {
 		v := c.C.Buf[0]
 		c.C.Buf = append([]Value{}, c.C.Buf[1:]...)
@@ -1387,6 +1448,26 @@ func (x *X) chanRecv(c ChanRef) (Value, bool) {
 }
 
 func (x *X) selectOp(fr *frame, ins *ssa.Select) Value {
+	if len(ins.States) == 1 && !ins.Blocking {
+		if c := x.get(fr, ins.States[0].Chan).(ChanRef); c.C != nil && c.C.Count != nil {
+			st := ins.States[0]
+			res := Tuple{nil, x.B.False()}
+			if st.Dir == types.RecvOnly {
+				res = append(res, x.zeroValue(c.C.ElemT))
+				if x.branch(x.B.Not(x.B.Eq(c.C.Count, x.B.Const(0, 8)))) {
+					c.C.Count = x.B.Sub(c.C.Count, x.B.Const(1, 8))
+					res[0], res[1] = x.c64(0), x.B.True()
+					return res
+				}
+			} else if x.branch(x.B.ULT(c.C.Count, x.B.Const(uint64(c.C.Cap), 8))) {
+				c.C.Count = x.B.Add(c.C.Count, x.B.Const(1, 8))
+				res[0] = x.c64(0)
+				return res
+			}
+			res[0] = x.c64(^uint64(0))
+			return res
+		}
+	}
 	var ready []int
 	for i, st := range ins.States {
 		c := x.get(fr, st.Chan).(ChanRef)
@@ -1506,6 +1587,9 @@ func (x *X) callFn(fn *ssa.Function, args []Value, bind []Value, cc *ssa.CallCom
 	name := fn.String()
 	if fn.Origin() != nil {
 		name = fn.Origin().String()
+	}
+	if x.bmc != nil && strings.HasPrefix(name, "sync/atomic.") {
+		x.bmcAtVisible(name)
 	}
 	if h, ok := intrinsics[name]; ok {
 		x.St.StubsUsed[name]++
